@@ -97,9 +97,10 @@ def in_domain(xs, x):
     """True: inside the domain or outside by less than 1 % of the edge interval; False: at or beyond 1 %; None: no claim
     (NaN, or so close to the tolerance point that the rounding of the code's own evaluation decides)."""
     if math.isnan(x): return False      # Locate exits on a NaN argument
-    if math.isinf(x): return False
     d0, d1 = xs[0], xs[-1]
     if d0 <= x <= d1: return True
+    if math.isinf(x): return False
+    if any(math.isinf(v) for v in (xs[0], xs[1], xs[-2], xs[-1])): return None      # no 1 % of an infinite edge interval
     if x < d0: e, h, ha, hb = d0, Fr(xs[1]) - Fr(xs[0]), xs[1], xs[0]
     else: e, h, ha, hb = d1, Fr(xs[-1]) - Fr(xs[-2]), xs[-1], xs[-2]
     dist = abs(Fr(x) - Fr(e)); tol = h / 100
@@ -166,6 +167,30 @@ def icalls_ref(t):
     if sx is None: return None, None
     n = int(t[pos]); pos += 1
     return worst(icall_verdicts(t, pos, n, sx)), (sx[0], sx[-1])
+
+
+def icalls_locs_ref(t):
+    """(converted table, arguments of the Locate requests in order) of a meaningful `icalls` / `icalls_t`"""
+    if t[0] == "icalls":
+        xs, pos = rd_list(t, 1, tokf); pos += 1
+    else:
+        rows, pos = rd_table(t, 1); xs = [r[0] for r in rows]
+    sx = scaled_table(xs, tokf(t[pos])); pos += 2
+    n = int(t[pos]); pos += 1; args = []
+    for _ in range(n):
+        w = t[pos]; pos += 1
+        if w == "loc": args.append(tokf(t[pos]))
+        pos += {"loc": 1, "ev": 1, "der": 2, "int": 2, "min": 2, "max": 2, "glob": 0}[w]
+    return sx, args
+
+
+def interval_ok(sx, x, j):
+    """is j the index of an interval of the table from which a request at x may be answered?  An interval [sx[j], sx[j+1]] that
+    contains x; the first / last interval for x in the tolerance band below / above the table."""
+    if not (0 <= j <= len(sx) - 2): return False
+    if x < sx[0]: return j == 0
+    if x > sx[-1]: return j == len(sx) - 2
+    return sx[j] <= x <= sx[j + 1]
 
 
 def i2calls_ref(t):
@@ -602,6 +627,8 @@ def generate(rng, tier):
     for l in [[], [1.0], [1.0, 2.0], [2.0, 1.0], [1.0, 1.0], [0.0, 1.0, 3.0], [0.0, 3.0, 1.0], [3.0, 0.0, 1.0], [0.0, 1.0, na(1.0, 0.0)], [0.0, 1.0, na(1.0, 2.0)], [-0.0, 0.0], [0.0, -0.0]]:
         for tg in (-1.0, 0.0, 0.5, 1.0, 2.0, 10.0): add(f"closest {flist(l)} {hx(tg)}", "closest", nt=True)
     gen_sessions(rng, big, add, edge_points)
+    gen_nonfinite_tables(rng, big, add)
+    gen_long_sessions(rng, big, add)
     return cs
 
 
@@ -771,6 +798,123 @@ def gen_sessions(rng, big, add, edge_points):
         add(f"mat_hist {s0[0]} {s0[1]} {len(ops)} " + " ".join(ops) + " " + pr, "matrix-history", nt=True)
 
 
+def gen_nonfinite_tables(rng, big, add):
+    """abscissae that are not finite: "not strictly increasing" includes a repeated +inf or -inf (inf - inf is NaN, inf <= inf is true), and an
+    infinite abscissa in a strictly increasing table is no reason to refuse it; tables with a NaN have no verdict here and are compared with the model only"""
+    inf, nan, big_ = math.inf, math.nan, 1.7976931348623157e308
+    bad = [[inf, inf], [-inf, -inf], [0.0, 1.0, inf, inf], [-inf, -inf, 0.0, 1.0], [0.0, inf, inf], [-inf, -inf, 0.0], [inf, -inf], [inf, 0.0], [0.0, inf, 1.0], [0.0, -inf], [-inf, -inf, inf, inf],
+           [1.0, inf, inf, inf], [-inf, 0.0, 1.0, inf, inf], [-inf, -inf, 0.0, 1.0, inf], [0.0, 1.0, 2.0, inf, inf, inf], [big_, inf, inf], [-inf, -inf, -big_]]
+    good = [[-inf, inf], [0.0, inf], [-inf, 0.0], [-inf, 0.0, inf], [0.0, 1.0, inf], [-inf, 0.0, 1.0, 2.0], [big_, inf], [-inf, -big_], [-big_, big_], [-big_, 0.0, big_], [-inf, -big_, big_, inf]]
+    unknown = [[0.0, nan], [nan, 0.0], [0.0, nan, 1.0], [nan, nan], [0.0, 1.0, nan, nan], [inf, nan], [nan, inf, inf], [0.0, 2.0, nan, 1.0], [inf, inf, nan]]
+    if not big: good = good[:4] + rng.sample(good[4:], 3); unknown = rng.sample(unknown, 4)
+    gy = [-1.0, 0.0, 4.0]
+    for xs in bad + good + unknown:
+        n = len(xs)
+        add(f"interp {flist(xs)} {n}", "nonfinite-table", nt=True)
+        add(f"interp_table {n} " + " ".join(f"2 {hx(x)} {hx(1.0)}" for x in xs), "nonfinite-table", nt=True)
+        xd = rng.choice([10.0, 0.5, 1e-3, 5.0677e15])
+        add(f"icalls {flist(xs)} {n} {hx(xd)} {hx(-1.0)} 0", "nonfinite-table", nt=True)
+        add(f"icalls_t {n} " + " ".join(f"2 {hx(x)} {hx(1.0)}" for x in xs) + f" {hx(rng.choice([-1.0, 2.0]))} {hx(2.5)} 0", "nonfinite-table", nt=True)
+        # an evaluation at a finite point between the finite abscissae (the table decides)
+        fin = [v for v in xs if not (math.isinf(v) or math.isnan(v))]
+        x = 0.5 * (fin[0] + fin[-1]) if len(fin) >= 2 and abs(fin[0]) < 1e300 else 0.5
+        add(f"icalls {flist(xs)} {n} {hx(-1.0)} {hx(-1.0)} 1 {rng.choice(['ev', 'loc'])} {hx(x)}", "nonfinite-table", nt=True)
+        add(f"interpolate {flist(xs)} {hx(x)}", "nonfinite-table", nt=True)
+        # both axes of the two-dimensional tables (list and table overload, with and without unit arguments)
+        add(f"interp2d {flist(xs)} {flist(gy)} {ilist([len(gy)] * n)}", "nonfinite-table", nt=True)
+        add(f"interp2d {flist(gy)} {flist(xs)} {ilist([n] * len(gy))}", "nonfinite-table", nt=True)
+        a, b = rng.choice([(-1.0, -1.0), (2.0, -1.0), (-1.0, 0.5), (3.0, 1e-3)])
+        if rng.random() < 0.5: add(f"i2calls {flist(xs)} {flist(gy)} {ilist([len(gy)] * n)} {hx(a)} {hx(b)} {hx(-1.0)} 0", "nonfinite-table", nt=True)
+        else: add(f"i2calls {flist(gy)} {flist(xs)} {ilist([n] * len(gy))} {hx(a)} {hx(b)} {hx(-1.0)} 0", "nonfinite-table", nt=True)
+        if xs in bad or big:
+            rows = [[x, y, 1.0] for x in xs for y in gy] if rng.random() < 0.5 else [[y, x, 1.0] for y in gy for x in xs]
+            add(f"interp2d_table {len(rows)} " + " ".join(flist(r) for r in rows), "nonfinite-table", nt=True)
+    # unit arguments that carry the last abscissae to infinity: the one-dimensional constructor validates the table as given, the two-dimensional
+    # one after the conversion (compared with the model; no verdict of its own, see ASSUMPTIONS)
+    for xs in [[1e300, 1.5e300], [0.0, 1e300, 1.5e300], [-1.5e300, -1e300, 0.0]]:
+        add(f"icalls {flist(xs)} {len(xs)} {hx(1e10)} {hx(-1.0)} 0", "nonfinite-table", nt=True)
+        add(f"i2calls {flist(xs)} {flist(gy)} {ilist([len(gy)] * len(xs))} {hx(1e10)} {hx(-1.0)} {hx(-1.0)} 0", "nonfinite-table", nt=True)
+        add(f"i2calls {flist(gy)} {flist(xs)} {ilist([len(xs)] * len(gy))} {hx(-1.0)} {hx(1e10)} {hx(-1.0)} 0", "nonfinite-table", nt=True)
+    for l in [[-inf, 0.0, inf], [inf, -inf], [0.0, inf, inf], [-inf, -inf], [inf], [0.0, inf, 1.0]]:
+        for tg in (-inf, 0.5, inf): add(f"closest {flist(l)} {hx(tg)}", "nonfinite-table", nt=True)
+
+
+def gen_long_sessions(rng, big, add):
+    """tables of every size class (2, 3, around the 10-interval correlation window, powers of two and their neighbours, several hundred to a thousand
+    points), an object that has already served requests (ascending / repeated / far-jump / descending histories that leave the search state at a chosen
+    distance m from either end of the table, or in the tolerance band itself), and then a request inside the 1 % tolerance band beyond that end (meaningful:
+    answered from the outermost interval) or just beyond the band (meaningless)"""
+    def grid(n):
+        if rng.random() < 0.4: return [float(k) for k in range(n)]
+        g = [rng.choice([-7.0, 0.0, 3.5])]
+        for _ in range(n - 1): g.append(g[-1] + rng.choice([0.25, 0.5, 1.0, 1.0, 3.0]))
+        return g
+    if big: lengths = [2, 3, 4, 5, 9, 10, 11, 12, 13, 21, 32, 33, 64, 65, 128, 129, 255, 256, 257, 258, 300, 511, 512, 513, 1000, 1024, 1025, 2049]
+    else: lengths = [2, 3, 11, 12, rng.choice([21, 33, 64, 65, 129]), 256, 257, rng.choice([258, 300, 511, 512]), 513, rng.choice([1000, 1024, 1025])]
+    def call(kind, x, y=None):
+        if kind in ("loc", "ev"): return f"{kind} {hx(x)}"
+        if kind == "der": return f"der {hx(x)} {rng.choice([0, 1, 2, 3])}"
+        return f"{kind} {hx(x)} {hx(y)}"
+    for n in lengths:
+        for rep in range(1 if not big else 3):
+            g = grid(n); xd = rng.choice([-1.0, -1.0, 10.0, 1.5 * 2.0 ** -40, 1e6]); fd = rng.choice([-1.0, 2.5])
+            sx = scaled_table(g, xd)
+            if sx is None: continue
+            h = f"icalls {flist(g)} {n} {hx(xd)} {hx(fd)}"
+            tol = {"R": 1e-2 * (sx[-1] - sx[-2]), "L": 1e-2 * (sx[1] - sx[0])}
+            edge = {"R": sx[-1], "L": sx[0]}; sgn = {"R": 1.0, "L": -1.0}
+            def inside(j, f=None):
+                j = min(max(j, 0), n - 2); f = rng.choice([0.0, 0.25, 0.5, 0.75]) if f is None else f
+                return sx[j] + f * (sx[j + 1] - sx[j])
+            def band(side):
+                f = rng.choice([1e-13, 1e-9, 1e-6, 1e-3, 0.004, 0.1, 0.4, 0.9, 0.99, "ulp"])
+                if f == "ulp": return na(edge[side], sgn[side] * math.inf)
+                return edge[side] + sgn[side] * f * tol[side]
+            def beyond(side): return edge[side] + sgn[side] * rng.choice([1.01, 1.5, 3.0, 100.0, 1e6]) * tol[side]
+            def final(side, x):
+                """one request that involves the point x beyond the end `side`"""
+                kind = rng.choice(["loc", "loc", "ev", "ev", "der", "int", "min", "max"])
+                if kind in ("loc", "ev", "der"): return call(kind, x)
+                y = inside(rng.randrange(n - 1))
+                return call(kind, y, x) if side == "R" else call(kind, x, y)
+            ms = [0] + (sorted(rng.sample(range(1, 18), 3)) if not big else list(range(1, 18)) + [31, 63])
+            for side in ("R", "L"):
+                for m in ms:
+                    if m > n - 2: continue
+                    j = n - 2 - m if side == "R" else m         # the interval in which the search state is left
+                    step = 1 if side == "R" else -1
+                    hists = {"sweep": [inside(j - step * k) for k in range(rng.choice([2, 3, 5]), -1, -1)], "same": [inside(j, 0.25), inside(j, 0.75)],
+                             "jump": [inside(n - 2 - j), inside(j)], "into": [inside(j - 1), inside(j - 1), inside(j)] if side == "L" else [inside(j + 1), inside(j)]}
+                    for name in (hists if big else ["sweep", "same", rng.choice(["jump", "into"])]):
+                        calls = [call(rng.choice(["ev", "ev", "loc", "der"]), x) for x in hists[name]]
+                        add(f"{h} {len(calls) + 1} " + " ".join(calls) + " " + final(side, band(side)), "long-table-history", nt=True)
+                    if m == ms[0] or big:
+                        calls = [call("ev", x) for x in hists["same"]]
+                        add(f"{h} {len(calls) + 1} " + " ".join(calls) + " " + final(side, beyond(side)), "long-table-history", nt=True)
+                # the tolerance band itself as history: repeated band requests, then the other end, then the interior
+                other = "L" if side == "R" else "R"
+                add(f"{h} 3 {call('ev', band(side))} {call('loc', band(side))} {final(side, band(side))}", "long-table-history", nt=True)
+                add(f"{h} 4 {call('ev', band(side))} {call('ev', band(side))} {call('loc', band(other))} {call('loc', inside(rng.randrange(n - 1)))}", "long-table-history", nt=True)
+                add(f"{h} 1 {final(side, band(side))}", "long-table-history", nt=True)
+            # a sweep over the whole table in steps of s intervals, overshooting the last abscissa
+            s_ = max(1, (n - 1) // rng.choice([3, 7, 20]))
+            xs_ = [inside(k, 0.5) for k in range(0, n - 1, s_)] + [inside(n - 2, 0.5)]
+            add(f"{h} {len(xs_) + 1} " + " ".join(call("ev", x) for x in xs_) + " " + call("ev", band("R")), "long-table-history", nt=True)
+            add(f"{h} {len(xs_) + 1} " + " ".join(call("ev", x) for x in reversed(xs_)) + " " + call("ev", band("L")), "long-table-history", nt=True)
+    # two-dimensional tables with one long axis: the two Locate objects inside have their own histories
+    for n in ([300] if not big else [12, 257, 300, 513]):
+        gx = [float(k) for k in range(n)]; gy = [-1.0, 0.0, 4.0, 5.0]
+        for (lx, ly, swap) in ((gx, gy, False), (gy, gx, True)):
+            h = f"i2calls {flist(lx)} {flist(ly)} {ilist([len(ly)] * len(lx))} {hx(-1.0)} {hx(-1.0)} {hx(-1.0)}"
+            for side in ("R", "L"):
+                for m in ([0, rng.randrange(1, 17)] if not big else range(0, 17)):
+                    j = n - 2 - m if side == "R" else m
+                    e = (gx[-1] + rng.choice([1e-9, 0.004, 0.009]) * (gx[-1] - gx[-2])) if side == "R" else (gx[0] - rng.choice([1e-9, 0.004, 0.009]) * (gx[1] - gx[0]))
+                    longs = [gx[j] + 0.25, gx[j] + 0.75, e]
+                    pts = [((u, rng.choice([-0.5, 2.0, 4.5])) if not swap else (rng.choice([-0.5, 2.0, 4.5]), u)) for u in longs]
+                    add(f"{h} {len(pts)} " + " ".join(f"{hx(x)} {hx(y)}" for x, y in pts), "long-table-history", nt=True)
+
+
 # ------------------------------------------------------------------ comparison, S4, non-triviality
 def compare(c, io, mo, tol):
     """model and implementation correspond when the outcome kinds agree; a model OOB (undefined behaviour predicted) corresponds to a
@@ -806,10 +950,26 @@ def predicates(c, io):
             _, d = vec_ref(t)
             if len(got) != 1 or int(got[0]) != d: out.append((op + ":result-size", f"after this history the vector has {d} components, the object says {io}"))
         elif op in ("icalls", "icalls_t", "i2calls", "i2calls_t"):
-            _, dom = (icalls_ref if op.startswith("icalls") else i2calls_ref)(t)
-            vals = [tokf(x) for x in got]
-            if dom is not None and (len(vals) != len(dom) or any(a != b for a, b in zip(vals, dom))):
+            one = op.startswith("icalls")
+            _, dom = (icalls_ref if one else i2calls_ref)(t)
+            nd = 2 if one else 4
+            if len(got) < nd + 1: return [(op + ":output", f"unexpected output {io}")]
+            vals = [tokf(x) for x in got[:nd]]
+            if dom is not None and any(a != b for a, b in zip(vals, dom)):
                 out.append((op + ":domain", f"`domain` is {vals} but the tabulated (converted) abscissae span {list(dom)}: requests are judged against the wrong interval"))
+            if one:
+                sx, args = icalls_locs_ref(t)
+                try: locs = [int(x) for x in got[nd + 1:-1]]; ok = int(got[nd]) == len(locs) == len(args)
+                except ValueError: ok = False
+                if not ok: return out + [(op + ":output", f"unexpected output {io}")]
+                for k, (x, j) in enumerate(zip(args, locs)):
+                    if not interval_ok(sx, x, j):
+                        where = "beyond the last interval: every coefficient read with it is out of bounds" if j > len(sx) - 2 else "an interval that does not contain the argument"
+                        out.append((op + ":locate-index", f"Locate request {k + 1} of the sequence, x = {x!r}: returned index {j} of a table with intervals 0..{len(sx) - 2} ({where})"))
+                        break
+            if got[-1] != "0":
+                out.append((op + ":answer-depends-on-history", f"{got[-1]} request(s) of the sequence got a different answer from this object than from an identical object that had served no request before "
+                            "(the interval search state jLast / correlated_calls leaks into the result: a wrong or out-of-bounds coefficient was read)"))
     return out
 
 
